@@ -2,7 +2,8 @@
 proof: theorems about Gen/Geometry.v (regenerated from geometry.{h,cpp} by cpp2v on every run);
 tie: translator (T) + translator validation: compiled C++ vs extracted Gen vs extracted spec deciders on
 exhaustive integer grids."""
-import os, json
+import os, json, math
+from fractions import Fraction
 from vlib import common as C
 
 PID = 'C16'
@@ -107,7 +108,8 @@ def gen_tuple(rng):
     """one structured tuple: (kind, a, b, c, d, q)"""
     R = lambda n: rng.range(-n, n)
     kind = rng.choice(['generic', 'small', 'collinear3', 'collinear4', 'shared_endpoint', 'touch_T', 'zero_length',
-                       'axis_parallel', 'proper_cross', 'rect_query', 'convex_quad_query', 'near_miss'])
+                       'axis_parallel', 'proper_cross', 'rect_query', 'convex_quad_query', 'near_miss',
+                       'lattice_meet', 'dyadic_meet'])
     q = None
     if kind == 'generic':
         a, b, c, d = [(R(LIM), R(LIM)) for _ in range(4)]
@@ -166,6 +168,47 @@ def gen_tuple(rng):
         m = [1 + rng.below(8) for _ in range(4)]
         pts = [(-m[0] * ux, -m[0] * uy), (m[1] * ux, m[1] * uy), (-m[2] * vx, -m[2] * vy), (m[3] * vx, m[3] * vy)]
         a, b, c, d = _embed(rng, pts)
+    elif kind == 'lattice_meet':
+        # two segments through a common lattice point p, with odd (often prime) numbers of lattice steps:
+        # the exact intersection point is an integer point, so the returned x, y must be exact
+        P_ODD = [3, 5, 7, 11, 13, 17, 19, 23, 29, 31, 37, 41, 43, 47, 49, 53, 59, 61, 97, 101, 127, 211, 251, 509, 1021]
+        def prim():
+            while True:
+                ux, uy = R(8), R(8)
+                if (ux, uy) != (0, 0) and math.gcd(abs(ux), abs(uy)) == 1:
+                    return ux, uy
+        (ux, uy), (vx, vy) = prim(), prim()
+        m = rng.choice(P_ODD); n = rng.choice(P_ODD)
+        while m * max(abs(ux), abs(uy)) > 1024: m = rng.choice(P_ODD[:12])
+        while n * max(abs(vx), abs(vy)) > 1024: n = rng.choice(P_ODD[:12])
+        i, j = rng.range(0, m), rng.range(0, n)
+        pts = [(-i * ux, -i * uy), ((m - i) * ux, (m - i) * uy), (-j * vx, -j * vy), ((n - j) * vx, (n - j) * vy)]
+        room = LIM - 1100
+        tx, ty = rng.range(-room, room), rng.range(-room, room)
+        a, b, c, d = [(x + tx, y + ty) for (x, y) in pts]
+    elif kind == 'dyadic_meet':
+        # segment a of m steps of u = (1, uy) (m odd) and segment b with B = b1 - b2 such that uy*Bx - By = +-2^k:
+        # the segments meet at b1 - (j / 2^k) B, a dyadic non-lattice point -> exactly representable in binary64
+        uy = R(3); k = rng.range(1, 6); sg = rng.choice([1, -1])
+        Bx = R(200); By = uy * Bx - sg * (1 << k)
+        b1 = (R(50), R(50)); b2 = (b1[0] - Bx, b1[1] - By)
+        j = rng.range(0, 1 << k)
+        px_ = Fraction(b1[0]) - Fraction(j, 1 << k) * Bx
+        py_ = Fraction(b1[1]) - Fraction(j, 1 << k) * By
+        m = rng.choice([3, 5, 7, 9, 11, 13, 49, 97, 101, 255, 511, 1021])
+        i = rng.range(0, m - 1)
+        a1x = math.floor(px_) - i
+        lam = px_ - a1x
+        a1y = py_ - lam * uy
+        assert a1y.denominator == 1
+        pts = [(a1x, int(a1y)), (a1x + m, int(a1y) + m * uy), b1, b2]
+        if rng.chance(1, 2):
+            pts = [(y, x) for (x, y) in pts]
+        if rng.chance(1, 2):
+            pts = [pts[2], pts[3], pts[0], pts[1]]
+        room = LIM - 2400
+        tx, ty = rng.range(-room, room), rng.range(-room, room)
+        a, b, c, d = [(x + tx, y + ty) for (x, y) in pts]
     elif kind == 'near_miss':
         # c is one unit off the segment ab / off its end
         dx, dy = R(30), R(30)
@@ -241,6 +284,34 @@ def random_stream(res, tier, cpp_exe, spec_exe, gen_exe):
         fx, fy = float(x), float(y)
         return abs(fx - fy) > 1e-6 + 1e-9 * abs(fx)
 
+    def parse_q(sq):
+        nu, de = sq.split('/')
+        return Fraction(int(nu, 2), int(de, 2))
+
+    def exact_differs(i, j, x, y):
+        """x: the double printed by the C++ (%.17g round-trips), y: the exact rational from the spec.
+        The returned value must EQUAL the exact one whenever that is exactly representable and the algorithm's
+        intermediate products are exact (|d*A| < 2^53); otherwise it must be within the rounding of the three operations
+        (product, quotient, sum): 2^-51 * (|a1| + |exact|)."""
+        if x == '-' or y == '-':
+            return x != y
+        fx, ex = Fraction(float(x)), parse_q(y)
+        if j == 5:                               # manhattanDist of integer points: exact
+            return fx != ex
+        a, b, c, d, q = rows[i]
+        Ax, Ay = b[0] - a[0], b[1] - a[1]
+        Bx, By = c[0] - d[0], c[1] - d[1]
+        Cx, Cy = a[0] - c[0], a[1] - c[1]
+        dd = By * Cx - Bx * Cy
+        N = dd * (Ax if j in (1, 3) else Ay)
+        a1 = a[0] if j in (1, 3) else a[1]
+        den = ex.denominator
+        if abs(N) < (1 << 53) and den & (den - 1) == 0 and den <= (1 << 30):
+            exact_stats['exact_required'] += 1
+            return fx != ex
+        exact_stats['ulp_bound'] += 1
+        return abs(fx - ex) > Fraction(abs(a1) + abs(ex), 1 << 51)
+
     def compare(other, other_name, what, limit):
         out = []
         if len(other) < count or len(cpp) < count:
@@ -249,6 +320,7 @@ def random_stream(res, tier, cpp_exe, spec_exe, gen_exe):
         head = other[0].split()
         pos = [k for k, ch in enumerate(head[0]) if ch != '?']
         nums = [j for j in range(1, 6) if head[j] != '?']
+        exact = other_name == 'exact_spec'
         for i in range(count):
             lc, lo = cpp[i], other[i]
             if lc == lo:
@@ -259,13 +331,19 @@ def random_stream(res, tier, cpp_exe, spec_exe, gen_exe):
             if bad:
                 out.append(case(i, what, RAND_POS[bad[0]], dc[bad[0]], do[bad[0]], other_name))
             else:
-                badn = [j for j in nums if num_differs(fc[j], fo[j])]
+                badn = [j for j in nums if (exact_differs(i, j, fc[j], fo[j]) if exact else num_differs(fc[j], fo[j]))]
                 if badn:
-                    out.append(case(i, what, RAND_NUM[badn[0] - 1], fc[badn[0]], fo[badn[0]], other_name))
+                    ov = fo[badn[0]]
+                    if exact and ov not in ('-', '?'):
+                        fr = parse_q(ov)
+                        ov = '%d/%d (= %.17g%s)' % (fr.numerator, fr.denominator, float(fr),
+                                                    ', exactly representable' if Fraction(float(fr)) == fr else '')
+                    out.append(case(i, what, RAND_NUM[badn[0] - 1], fc[badn[0]], ov, other_name))
             if len(out) >= limit:
                 break
         return out
 
+    exact_stats = {'exact_required': 0, 'ulp_bound': 0}
     spec_bad = compare(spec, 'exact_spec', 'compiled libavoid predicate disagrees with the exact-arithmetic spec decider '
                                            '(random stream)', 3)
     for v in spec_bad:
@@ -296,6 +374,9 @@ def random_stream(res, tier, cpp_exe, spec_exe, gen_exe):
             'fields_compared_with_spec': [RAND_POS[k] for k, ch in enumerate(spec[0].split()[0]) if ch != '?']
                                          + [RAND_NUM[j - 1] for j in range(1, 6) if spec[0].split()[j] != '?'] if spec and spec[0] else [],
             'spec_violations': len(spec_bad), 'gen_disagreements': gen_bad[:5],
+            'numeric_comparison': {'rule': 'returned x, y (and manhattanDist) compared with the exact rational of the spec: equality '
+                                           'required when the exact value is dyadic (denominator <= 2^30) and |d*A| < 2^53, else '
+                                           '|impl - exact| <= 2^-51 (|a1| + |exact|)', **exact_stats},
             'seconds': {'cpp': round(dt_cpp, 2), 'spec': round(dt_spec, 2)},
             'samples': [{'kind': kinds[i], 'tuple': [list(p) for p in rows[i]], 'cpp': cpp[i]} for i in (0, count // 2, count - 1)]}
     return info, gen_bad
